@@ -316,6 +316,7 @@ def hintOr (env : Env α) (n : Nat) (p : Pt) : Option Simplex → Simplex
 
 /-- `tell_pending(point, simplex=hint)` -/
 def tellPending (env : Env α) (s : State α) (p : Pt) (hint : Option Simplex) : Except Err (State α) :=
+  if s.data.contains p then .ok s else
   if !env.inside p then .ok s else
   let s := { s with pending := if s.pending.contains p then s.pending else s.pending ++ [p] }
   match touchTri env s with
